@@ -745,73 +745,59 @@ def execute(run_seed, case, cfg, known):
     return PuritySim(run_seed, case, cfg, known).run()
 
 
+def _refs(v, out):
+    if isinstance(v, dict):
+        if "$node" in v:
+            out.add(v["$node"])
+        if "$attr" in v:
+            out.add(v["$attr"][0])
+        for x in v.values():
+            _refs(x, out)
+    elif isinstance(v, list):
+        for x in v:
+            _refs(x, out)
+
+
 def simplifications(case):
-    """After ddmin: drop recipe nodes nothing references; drop config knobs; drop profile."""
+    """After ddmin: keep only the recipe nodes the schedule (transitively) needs; then try without each remaining node whose
+    removal leaves the recipe closed; drop config knobs; drop the profiling path."""
     import copy
 
-    used = set()
-
-    def walk(v):
-        if isinstance(v, dict):
-            if "$node" in v:
-                used.add(v["$node"])
-            if "$attr" in v:
-                used.add(v["$attr"][0])
-            for x in v.values():
-                walk(x)
-        elif isinstance(v, list):
-            for x in v:
-                walk(x)
-
+    by_id = {n["id"]: n for n in case["recipe"]}
+    needed = set()
     for op in case["schedule"]:
         if op.get("target"):
-            used.add(op["target"])
-        walk(op)
-    by_id = {n["id"]: n for n in case["recipe"]}
-    frontier = list(used)
+            needed.add(op["target"])
+        _refs(op, needed)
+    frontier = list(needed)
     while frontier:
-        i = frontier.pop()
-        n = by_id.get(i)
+        n = by_id.get(frontier.pop())
         if n is None:
             continue
-        before = set(used)
-        walk({k: v for k, v in n.items() if k not in ("id", "kind")})
-        frontier.extend(used - before)
-    pruned = [n for n in case["recipe"] if n["id"] in used]
-    if pruned and len(pruned) < len(case["recipe"]):
+        deps = set()
+        _refs({k: v for k, v in n.items() if k not in ("id", "kind")}, deps)
+        for d in deps - needed:
+            needed.add(d)
+            frontier.append(d)
+    pruned = [n for n in case["recipe"] if n["id"] in needed]
+    if len(pruned) < len(case["recipe"]):
         c = copy.deepcopy(case)
         c["recipe"] = pruned
         yield c
-    # try dropping one unreferenced-by-schedule leaf at a time
+    # nodes nothing else refers to (only possible when the schedule is empty or refers to them indirectly)
+    referenced = set()
+    for n in case["recipe"]:
+        _refs({k: v for k, v in n.items() if k not in ("id", "kind")}, referenced)
+    sched_refs = set()
+    for op in case["schedule"]:
+        if op.get("target"):
+            sched_refs.add(op["target"])
+        _refs(op, sched_refs)
     for n in reversed(case["recipe"]):
-        referenced = False
-        for m in case["recipe"]:
-            if m is n:
-                continue
-            u = set()
-            used_backup = set(used)
-            used.clear()
-            walk({k: v for k, v in m.items() if k not in ("id", "kind")})
-            u = set(used)
-            used.clear()
-            used.update(used_backup)
-            if n["id"] in u:
-                referenced = True
-                break
-        if not referenced and not any(op.get("target") == n["id"] for op in case["schedule"]):
-            sched_refs = set()
-            used_backup = set(used)
-            used.clear()
-            for op in case["schedule"]:
-                walk(op)
-            sched_refs = set(used)
-            used.clear()
-            used.update(used_backup)
-            if n["id"] not in sched_refs:
-                c = copy.deepcopy(case)
-                c["recipe"] = [x for x in c["recipe"] if x["id"] != n["id"]]
-                if c["recipe"]:
-                    yield c
+        if n["id"] not in referenced and n["id"] not in sched_refs and len(case["recipe"]) > 1:
+            c = copy.deepcopy(case)
+            c["recipe"] = [x for x in c["recipe"] if x["id"] != n["id"]]
+            yield c
     if case["knobs"].get("conf"):
         c = copy.deepcopy(case)
         c["knobs"]["conf"] = {}
